@@ -291,6 +291,15 @@ class DecayConfig(BaseConfig):
                     break
             if flag:
                 ret.append(decay_chain)
+        # the other decays of a removed chain leave the particles' decay lists
+        # too, unless a remaining chain uses them
+        used = set(id(i) for decay_chain in ret for i in decay_chain)
+        for decay_chain in decays:
+            for i in decay_chain:
+                if id(i) not in used:
+                    i.core.decay[:] = [k for k in i.core.decay if k is not i]
+                    for j in i.outs:
+                        j.creators[:] = [k for k in j.creators if k is not i]
         return ret
 
     def get_decay_struct(
